@@ -236,7 +236,16 @@ class QueryGen:
                 choices += ["neg"]
             if self.f["cast"] and ints:
                 choices += ["cast"]
+            if self.f.get("algebra", True) and ints:
+                choices += ["algebra"]
         c = r.choice(choices)
+        if c == "algebra":
+            # shapes the algebraic simplification rules are written for (x - 0, 0 - x, x * (y + z),
+            # x*y + x*z, (x * y) * z, x / x, x + x)
+            self.tag("algebra")
+            x, y, z = (self.int_expr(scope, d + 1) for _ in range(3))
+            return r.choice([f"({x} - 0)", f"(0 - {x})", f"({x} * ({y} + {z}))", f"(({x} * {y}) + ({x} * {z}))",
+                             f"(({x} * {y}) * {z})", f"({x} / {x})", f"({x} + {x})", f"(({x} + {y}) - {y})", f"({x} * 0)"])
         if c == "col":
             return r.choice(ints)[0]
         if c == "lit":
@@ -318,7 +327,16 @@ class QueryGen:
             choices += ["between"]
         if self.f["like"] and self.cols_of(scope, lambda t: t == "VARCHAR"):
             choices += ["like"]
+        icols = self.cols_of(scope, lambda t: t == "INT")
+        if self.f.get("same_col_bounds", True) and icols:
+            choices += ["bounds"]
         c = r.choice(choices)
+        if c == "bounds":
+            # two constant bounds on one column (same or opposite direction): the range folding rules
+            self.tag("same_col_bounds")
+            col = r.choice(icols)[0]
+            o1, o2 = r.choice([">", ">=", "<", "<="]), r.choice([">", ">=", "<", "<="])
+            return f"(({col} {o1} {self.int_lit()}) AND ({col} {o2} {self.int_lit()}))"
         if c == "cmp":
             return self.cmp(scope, d)
         if c == "boolcol":
@@ -649,8 +667,12 @@ class QueryGen:
                 kinds += ["sum", "sum"]
             if self.f["count_distinct"]:
                 kinds += ["count_distinct"]
+        if ints and self.f.get("avg", False):
+            kinds += ["avg"]
         k = r.choice(kinds)
         self.tag("agg:" + k)
+        if k == "avg":
+            return f"AVG({r.choice(ints)[0]})", "INT"
         if k == "count_star":
             return "COUNT(*)", "INT"
         arg = r.choice(ints)[0]
